@@ -38,7 +38,9 @@ CLASSES = {6: "HHHDLD", 7: "HHHDLDH", 8: "HHHDLDHH", 9: "HHHDLDHHL"}
 def base_rows(n, variant=0):
     rows = []
     for i, c in enumerate(CLASSES[n]):
-        key = {"H": 100.0, "D": 10.0, "L": 10.5}[c] + i + 0.25 * variant
+        key = {"H": 100.0, "D": 10.0, "L": 10.5}[c] + i + 0.25 * (variant % 10)
+        if variant >= 10:
+            key = -key  # the best single feature is lower-is-better
         f2 = {"H": 3.0, "D": 1.0, "L": 2.0}[c] + ((i * 7 + variant) % 5) * 0.3
         rows.append(dict(key=key, f2=f2, f3=float((i * 3 + variant) % 4), target=c != "D", spec=i, pep=f"P{i}"))
     return rows
@@ -121,9 +123,37 @@ def run_fit(rows, case):
     psms = make_psms(rows)
     model = make_model(case["kind"], first_only=False, max_iter=case["max_iter"], shuffle=case["shuffle"], rng=case["seed"])
     del recorders.SEARCH_LOG[:]
-    model.fit(psms)
+    try:
+        model.fit(psms)
+    except Exception as e:
+        e.model_ = model
+        raise
     model.search_log_ = list(recorders.SEARCH_LOG)
     return model
+
+
+def refusal_justified(rows, model, max_iter):
+    """Model.fit may refuse ('performs worse') only if some iteration accepts no target, or the last iteration accepts
+    fewer targets than the first fit had positives / than the best single feature - judged by the reference on the
+    logged scores (ranked higher-is-better, as the statement says)."""
+    label = {r["key"]: r["target"] for r in rows}
+    log = model.estimator.log_ if hasattr(model.estimator, "log_") else []
+    fits = [e for e in log if e[0] == "fit"]
+    scs = [e for e in log if e[0] == "score" and e[1] == "train"]
+    if not fits or not scs:
+        return True  # refused before the estimator produced any score: nothing to judge
+    passed = [len(accepted(list(e[2]), list(e[3]), label, True)) for e in scs]
+    if any(p == 0 for p in passed):
+        return True
+    if len(scs) < max_iter:
+        return False  # stopped early although every iteration accepted targets
+    start_pos = sum(1 for v in fits[0][3] if v == 1)
+    best = 0
+    for f in ("key", "f2", "f3"):
+        vals = {r["key"]: r[f] for r in rows}
+        for desc in (True, False):
+            best = max(best, len(accepted(list(label), [vals[k] for k in label], label, desc)))
+    return passed[-1] < start_pos or passed[-1] < best
 
 
 def check_search(rows, model, add):
@@ -163,8 +193,14 @@ def check_case(case, acc, ref_cache=None):
         model = run_fit(rows, case)
     except Exception as e:
         cls, desc = classify_exception(e)
+        m = getattr(e, "model_", None)
         if cls == "crash":
             add("crash:" + exc_signature(e), f"Model.fit crashed for row order {perm}: {desc}")
+        elif m is not None and "performs worse" in str(e) and not refusal_justified(rows, m, case["max_iter"]):
+            add("training-refused-although-targets-are-accepted",
+                f"Model.fit raised '{e}' for row order {perm}, shuffle={case['shuffle']}, although under the logged model "
+                "scores (ranked higher-is-better) every iteration accepts targets at train_fdr and the last one at least as "
+                "many as the first fit's positives and the best single feature")
         elif ref is not None and ref != exc_signature(e):
             # the reference execution (stored order, shuffle on) trains: so must every other order / shuffle flag
             add("training-fails-for-this-order:" + exc_signature(e),
@@ -223,6 +259,38 @@ def extras_case(case, acc):
                                     dict(case, extras=True), expected=pred, observed=got))
     finally:
         shutil.rmtree(work, ignore_errors=True)
+    # The SAME Model object fitted again on the same PSMs with the feature columns in another order: what the model
+    # predicts for its training rows must be what its estimator returned for those rows in the last training iteration
+    # (features are matched by name, also after a second fit).  A re-fit starts from the trained model, so it is NOT
+    # compared with a fresh model.
+    def last_scores(m):
+        e = [x for x in m.estimator.log_ if x[0] == "score" and x[1] == "train"][-1]
+        j = list(m.features).index("key")  # position of the key feature in the rows the estimator saw
+        return {row[j]: v for row, v in zip(e[5], e[3])}
+
+    model = make_model(case["kind"], first_only=False, full=True, max_iter=case["max_iter"], shuffle=case["shuffle"], rng=case["seed"])
+    try:
+        model.fit(make_psms(rows0))
+    except (RuntimeError, ValueError):
+        return
+    for order in (("key", "f2", "f3"), ("f3", "key", "f2"), ("f2", "f3", "key")) if case["kind"] == "linear" else ():
+        try:
+            if order != ("key", "f2", "f3"):
+                model.fit(make_psms(rows0, order))
+        except (RuntimeError, ValueError):
+            acc.count("refit_skipped_training_refused")
+            continue
+        acc.count("refit_predictions")
+        want = last_scores(model)
+        for target_order in (("key", "f2", "f3"), order):
+            got = model.predict(make_psms(rows0, target_order))
+            exp = np.array([want[r["key"]] for r in rows0])
+            if not np.allclose(got, exp, rtol=1e-9, atol=1e-9):
+                acc.violation(Violation("refit-uses-stale-feature-order" if order != ("key", "f2", "f3") else "predict-differs-from-training-scores",
+                                        f"after fitting on feature order {order} the model's predictions for its training rows "
+                                        f"(frame order {target_order}) are not the scores its estimator gave those rows in the "
+                                        "last training iteration", dict(case, extras=True), expected=exp, observed=got))
+                break
 
 
 def worker(item):
@@ -275,6 +343,12 @@ def run(ctx):
         for perm in itertools.permutations(range(7)):
             for shuffle in (True, False):
                 cases.append(dict(n=7, perm=list(perm), shuffle=shuffle, max_iter=2, kind="grid:linear", seed=2))
+    # best single feature lower-is-better
+    for perm in itertools.permutations(range(6)):
+        for shuffle in (True, False):
+            cases.append(dict(n=6, variant=10, perm=list(perm), shuffle=shuffle, max_iter=3, kind="linear", seed=1))
+    for perm in structured_perms(8, 96):
+        cases.append(dict(n=8, variant=11, perm=perm, shuffle=True, max_iter=3, kind="linear", seed=2))
     # second dataset variant and other seeds on a structured subset
     for variant in (1, 2):
         for perm in structured_perms(8, 200 if ctx.quick else 384):
